@@ -135,6 +135,12 @@ def queries(tier):
         for steps in ([], [('with_namespace', 'ns'), ('with_version', '1'), ('with_qualifier', 'K', 'v'), ('with_subpath', 's')]):
             qs.append(Query('build String|Cow|SmallString type=⟦%d⟧ %s' % (n, 'full' if steps else 'minimal'), h_builder, {'n': n, 'steps': steps},
                             bound='type string = every valid-UTF-8 string of %d bytes (valid and invalid types), four type parameters on one path' % n))
+    # two defects at once (a free, possibly invalid type next to an empty name / a malformed checksum): the same error from every parameter
+    for n in lens(3, 1):
+        qs.append(Query('build String|Cow|SmallString type=⟦%d⟧ empty name' % n, h_builder, {'n': n, 'steps': [], 'name': ''},
+                        bound='type string = every valid-UTF-8 string of %d bytes, name "", four type parameters on one path' % n))
+        qs.append(Query('build String|Cow|SmallString type=⟦%d⟧ malformed checksum' % n, h_builder, {'n': n, 'steps': [('with_qualifier', 'checksum', 'sha1:zz')]},
+                        bound='type string = every valid-UTF-8 string of %d bytes, checksum "sha1:zz", four type parameters on one path' % n))
     # field values free (type fixed): each PurlShape impl finishes / validates the same parts
     FULL = [('with_namespace', 'ns'), ('with_version', '1'), ('with_qualifier', 'K', 'v'), ('with_subpath', 's')]
 
@@ -186,4 +192,5 @@ vacuity = std_vacuity
 LEVEL_TEXT = ('bounded symbolic model checking of the real MIR as a product: the same symbolic input runs through two (parser) or four (builder) '
               'instantiations of the type parameter on one path and equality of outcome, error, type, accessors and canonical string is a solver validity query; '
               'decides divergence between purl\'s three PurlShape impls (String, Cow, SmartString) and their callers')
-ASSUMPTIONS = ['String and SmartString share one model in the engine: differences inside the smartstring crate itself are only sampled by native witness replay']
+ASSUMPTIONS = ['SmartString::is_inline() is modelled as len <= 23: a string shortened in place stays on the heap in the real crate; values whose representation differs from what their length implies (in-place truncate through builder.parts / get_mut) are outside the claim (seeded changes S7-C17, S7-C19 are not detected)',
+               'String and SmartString share one model in the engine: differences inside the smartstring crate itself are only sampled by native witness replay']
